@@ -79,7 +79,7 @@ Lemma ngood_frame n s s' (touch : Z -> Prop) :
 Proof.
   intros [K C R E O] F Ht Ha Hl. constructor.
   - eapply closed_frame; eauto.
-  - intros x c' Hi H. destruct (f_circ _ _ _ _ _ F _ _ Hi H) as (c & Hc & A1 & A2 & A3 & L & K1 & W).
+  - intros x c' Hi H. destruct (f_circ _ _ _ _ _ F _ _ Hi H) as (c & Hc & A1 & A2 & A3 & _ & _ & L & K1 & W).
     destruct (C _ _ Hi Hc) as (A & B & [(Kc & due & Hin & Hle)|(Kc & Hj & Hg & Hf & Hla)]).
     + split; [exact A|]. split; [exact B|]. left. split; [auto|].
       exists due. split; [|exact Hle]. apply (f_sleep _ _ _ _ _ F); auto. congruence.
@@ -94,7 +94,7 @@ Proof.
     destruct (R _ _ Hi Hr) as [(k & Hk & Hn & Hc) Hla]. split.
     + exists k. split; [exact Hk|]. split; [exact Hn|]. rewrite N, P. exact Hc.
     + destruct L as [L|[T L]]; [lia | rewrite L; eauto].
-  - intros x e' Hi H. destruct (f_exit _ _ _ _ _ F _ _ Hi H) as (e & He & L).
+  - intros x e' Hi H. destruct (f_exit _ _ _ _ _ F _ _ Hi H) as (e & He & _ & L).
     destruct (E _ _ Hi He) as [Hk Hla]. split; [exact Hk|].
     destruct L as [L|[T L]]; [lia | rewrite L; eauto].
   - intros x Hi H. rewrite (f_now _ _ _ _ _ F). destruct (f_starts _ _ _ _ _ F _ H) as [H0|[_ H0]]; [eauto|].
@@ -149,7 +149,7 @@ Proof.
   assert (Ex : forall x e, I x = true -> aget x (exits s) = Some e ->
             (exists k, ((j < k)%nat \/ (cut /\ k = j)) /\ (1 <= k <= h)%nat /\ n = nd p k /\ x = idk p k)
             /\ la (e_ro e) <= Tmax).
-  { intros x e Hi Hg. pose proof (forallb_aget _ _ _ _ He Hg) as X. unfold exit_shape_b in X.
+  { intros x e Hi Hg. pose proof (forallb_aget _ _ _ _ He Hg) as X. try clear Hc Hs Hrt Hcr He Hr. unfold exit_shape_b in X.
     fold I in X. rewrite Hi in X. simpl in X. apply andb_true_iff in X. destruct X as [X Hla]. split; [|lia].
     apply orb_true_iff in X. destruct X as [X|X].
     - apply existsb_exists in X. destruct X as (k & Hk & X). apply in_seq in Hk. fold h in Hk.
@@ -160,15 +160,15 @@ Proof.
       exists j. split; [right; split; [exact X1 | reflexivity]|]. split; [unfold h; pose proof Hjh; lia|]. lia. }
   constructor.
   - constructor.
-    + intros x r Hi Hg. pose proof (forallb_aget _ _ _ _ Hr Hg) as X. unfold relay_shape_b in X.
+    + intros x r Hi Hg. pose proof (forallb_aget _ _ _ _ Hr Hg) as X. try clear Hc Hs Hrt Hcr He Hr. unfold relay_shape_b in X.
       fold I in X. rewrite Hi in X. apply negb_true_iff in X. exact X.
-    + intros k cc Hg. pose proof (forallb_aget _ _ _ _ Hcr Hg) as X. unfold create_shape_b in X. simpl in X.
+    + intros k cc Hg. pose proof (forallb_aget _ _ _ _ Hcr Hg) as X. try clear Hc Hs Hrt Hcr He Hr. unfold create_shape_b in X. simpl in X.
       apply andb_true_iff in X. destruct X as [X1 X2]. apply negb_true_iff in X1, X2. auto.
-    + intros x rt Hg. pose proof (forallb_aget _ _ _ _ Hrt Hg) as X. unfold retry_shape_b in X. simpl in X.
+    + intros x rt Hg. pose proof (forallb_aget _ _ _ _ Hrt Hg) as X. try clear Hc Hs Hrt Hcr He Hr. unfold retry_shape_b in X. simpl in X.
       apply negb_true_iff in X. exact X.
     + intros d Hin. rewrite forallb_forall in Hs. specialize (Hs _ Hin).
       destruct d; simpl in *; try exact Logic.I; apply negb_true_iff in Hs; exact Hs.
-  - intros x c Hi Hg. pose proof (forallb_aget _ _ _ _ Hc Hg) as X. unfold circ_shape_b in X.
+  - intros x c Hi Hg. pose proof (forallb_aget _ _ _ _ Hc Hg) as X. try clear Hc Hs Hrt Hcr He Hr. unfold circ_shape_b in X.
     fold I in X. rewrite Hi in X. cbn [negb orb] in X.
     apply andb_true_iff in X. destruct X as [X Y]. apply andb_true_iff in X. destruct X as [X1 X2].
     split; [lia|]. split; [lia|]. apply orb_true_iff in Y. destruct Y as [Y|Y].
@@ -178,7 +178,7 @@ Proof.
       assert (y = x) by lia. subst y. exists due. split; [exact Hin | lia].
     + right. repeat (apply andb_true_iff in Y; destruct Y as [Y ?]). rewrite Lq_is_L_of in *.
       split; [apply negb_true_iff; exact Y|]. split; [apply Nat.leb_le; assumption|]. repeat split; lia.
-  - intros x r Hi Hg. pose proof (forallb_aget _ _ _ _ Hr Hg) as X. unfold relay_shape_b in X.
+  - intros x r Hi Hg. pose proof (forallb_aget _ _ _ _ Hr Hg) as X. try clear Hc Hs Hrt Hcr He Hr. unfold relay_shape_b in X.
     fold I in X. rewrite Hi in X. apply andb_true_iff in X. destruct X as [X Hla]. split; [|lia].
     apply existsb_exists in X. destruct X as (k & Hk & X). apply in_seq in Hk.
     unfold route_b in X. exists k. fold h in Hk. split; [lia|].
